@@ -19,7 +19,13 @@ import (
 	"time"
 )
 
-const VerifDir = "/verif"
+// VerifDir is where evidence, replays and known findings live.
+var VerifDir = func() string {
+	if d := os.Getenv("VERIF_DIR"); d != "" {
+		return d
+	}
+	return "/verif"
+}()
 
 // Finding is one line of /verif/known_findings.jsonl.
 type Finding struct {
